@@ -193,7 +193,10 @@ def tal_evidence(agg: dict, rule: str) -> dict:
             "stub": ["every callable bound in the template (the probe P, "
                      "on_error_handler): they log, then return or raise per "
                      "the fault plan", "the reference interpreter that "
-                     "supplies expected values"]},
+                     "supplies expected values", "asynchronous "
+                     "KeyboardInterrupt / SystemExit raised from the "
+                     "sys.monitoring LINE callback at the n-th (distinct) "
+                     "line of a render (C12, C13: every second template)"]},
         "assumptions": [
             "the reference interpreter (sim/model.py) is trusted for the "
             "generated subset; it follows docs/reference.rst and the "
